@@ -27,6 +27,11 @@ pub struct Step {
     /// index: consistent ordering, never re-entrant)
     #[serde(default)]
     pub nested: Option<usize>,
+    /// the calling thread has a pending wake-up token when it calls `apply` (it unparked
+    /// itself earlier: legal, and what a joined scope or an earlier hand-off leaves behind) —
+    /// a lock that sleeps with `park` must not take the stale token for its own wake-up
+    #[serde(default)]
+    pub pre_unpark: bool,
 }
 
 #[derive(Clone, Debug, Serialize, Deserialize, PartialEq)]
@@ -82,6 +87,7 @@ pub fn gen(rng: &mut Rng) -> LockScenario {
                         } else {
                             None
                         },
+                        pre_unpark: rng.chance(1, 5),
                     }
                 })
                 .collect()
@@ -124,6 +130,9 @@ pub fn evaluate(sc: &LockScenario) -> (Option<Finding>, Option<ExecInfo>) {
                 let mut obs = Vec::new();
                 for (s, d, d2, token) in my {
                     let mut inner_obs = None;
+                    if s.pre_unpark {
+                        shuttle::thread::current().unpark();
+                    }
                     let (read, returned_token) = locks[s.lock].apply(|v| {
                         let r = *v;
                         for _ in 0..s.inside {
@@ -249,7 +258,7 @@ pub fn run_case(_prop: &str, _batch: &str, run_seed: u64) -> CaseOut {
     let (f, info) = evaluate(&sc);
     out.sample = Some(json!({
         "locks": sc.n_locks,
-        "threads": sc.threads.iter().map(|t| t.iter().map(|s| format!("lock{} in{} out{}{}", s.lock, s.inside, s.outside, s.nested.map(|j| format!(" nested->lock{j}")).unwrap_or_default())).collect::<Vec<_>>()).collect::<Vec<_>>(),
+        "threads": sc.threads.iter().map(|t| t.iter().map(|s| format!("lock{} in{} out{}{}", s.lock, s.inside, s.outside, s.nested.map(|j| format!(" nested->lock{j}")).unwrap_or_default() + if s.pre_unpark { " pending-unpark" } else { "" })).collect::<Vec<_>>()).collect::<Vec<_>>(),
         "schedule": sc.spec.describe(),
     }));
     if let Some(i) = info {
@@ -326,6 +335,11 @@ pub fn shrink_payload(payload: &Json, class: &str) -> (Json, Json) {
                     c.threads[t][s].nested = None;
                     cands.push(c);
                 }
+                if cur.threads[t][s].pre_unpark {
+                    let mut c = cur.clone();
+                    c.threads[t][s].pre_unpark = false;
+                    cands.push(c);
+                }
             }
         }
         if cur.n_locks > 1 {
@@ -366,7 +380,7 @@ pub fn known(_p: &str, _payload: &Json, _class: &str, _k: &[KnownFinding]) -> Op
 pub fn describe(_prop: &str) -> PropText {
     PropText {
         level: "exploration",
-        rule: "cases = 2..16 simulated threads x 1..6 read-modify-write closures each on 1..3 locks (1 in 12: a table of 60..200 locks), with 0..3 scheduling points inside the critical section (1 in 12: 150-250, 1 in 48: 5500-7000) and 0..2 outside, 1 in 6 closures nesting a closure on a higher-indexed lock, each case under one seeded schedule (random / PCT depth 1-4 / URW); every closure ORs a distinct bit and returns what it read; oracle: reads sorted by popcount form the chain of all earlier updates, the final value holds every update, every call returns its own closure's value, the deadlock detector never fires. distinct = distinct (scenario shape, order in which tasks were scheduled); non-trivial = at least one context switch".into(),
+        rule: "cases = 2..16 simulated threads x 1..6 read-modify-write closures each on 1..3 locks (1 in 12: a table of 60..200 locks), with 0..3 scheduling points inside the critical section (1 in 12: 150-250, 1 in 48: 5500-7000) and 0..2 outside, 1 in 6 closures nesting a closure on a higher-indexed lock, 1 in 5 calls made with a pending unpark token (stale wake-up fault), each case under one seeded schedule (random / PCT depth 1-4 / URW); every closure ORs a distinct bit and returns what it read; oracle: reads sorted by popcount form the chain of all earlier updates, the final value holds every update, every call returns its own closure's value, the deadlock detector never fires. distinct = distinct (scenario shape, order in which tasks were scheduled); non-trivial = at least one context switch".into(),
         assumptions: vec![
             "the lock's source is the real file from /repo's working tree, re-read at every build; only the path prefixes std::sync:: / std::thread:: are replaced by shuttle's so that the scheduler controls the primitive (E3). Engine E2 runs the untouched crate on real std primitives under Miri's seeded scheduler".into(),
             "shuttle's Mutex models std::sync::Mutex (mutual exclusion, poisoning)".into(),
